@@ -829,10 +829,17 @@ def run_property(pid, tier, seed):
             rxlib.gen_tables()
         except rxlib.TieLost as e:
             proof_problems.append("translator cannot read the source any more (tie lost): %s" % e)
-        rc, out = rxlib.coq_make()
+        # the model first (everything depends on it), then only what this property's theorems need,
+        # so that a proof that breaks for another property does not raise an alarm here
+        rc, out = rxlib.coq_make(rxlib.model_targets())
         if rc != 0:
             tail = "\n".join(out.splitlines()[-25:])
-            proof_problems.append("Coq build failed (a model definition or a proof no longer checks against the regenerated tables): " + tail)
+            proof_problems.append("the Coq model no longer compiles against the regenerated tables: " + tail)
+        elif os.path.exists(os.path.join(rxlib.COQ, "Properties", pid + ".v")):
+            rc2, out2 = rxlib.coq_make(["Properties/%s.vo" % pid])
+            if rc2 != 0:
+                tail = "\n".join(out2.splitlines()[-25:])
+                proof_problems.append("a proof obligation of %s no longer checks (against the model / the regenerated tables): %s" % (pid, tail))
         bad = rxlib.scan_sources()
         if bad:
             proof_problems.append("forbidden vernacular in the development: " + "; ".join(bad[:5]))
